@@ -95,6 +95,13 @@ CONSTRUCTORS = {
     'MeshTri.refined(2)': ('tri', lambda f: f.MeshTri().refined(2)),
     'MeshTet.refined(1)': ('tet', lambda f: f.MeshTet().refined(1)),
     'MeshHex.refined(1)': ('hex', lambda f: f.MeshHex().refined(1)),
+    # periodic (discontinuous-topology) meshes: vertices identified across the periodic boundary
+    'MeshTri1DG.periodic[0]': ('tri', lambda f: f.MeshTri1DG.init_tensor(np.linspace(0, 1, 4), np.linspace(0, 1, 3), periodic=[0])),
+    'MeshTri1DG.periodic[0,1]': ('tri', lambda f: f.MeshTri1DG.init_tensor(np.linspace(0, 1, 4), np.linspace(0, 1, 4), periodic=[0, 1])),
+    'MeshQuad1DG.periodic[1]': ('quad', lambda f: f.MeshQuad1DG.init_tensor(np.linspace(0, 1, 3), np.linspace(0, 1, 4), periodic=[1])),
+    'MeshQuad1DG.periodic[0,1]': ('quad', lambda f: f.MeshQuad1DG.init_tensor(np.linspace(0, 1, 4), np.linspace(0, 1, 4), periodic=[0, 1])),
+    'MeshLine1DG.periodic': ('line', lambda f: f.MeshLine1DG.init_tensor(np.linspace(0, 1, 5), periodic=[0])),
+    'MeshHex1DG.periodic[0]': ('hex', lambda f: f.MeshHex1DG.init_tensor(np.linspace(0, 1, 4), np.linspace(0, 1, 3), np.linspace(0, 1, 3), periodic=[0])),
     'MeshTri2()': ('tri', lambda f: f.MeshTri2()),
     'MeshQuad2()': ('quad', lambda f: f.MeshQuad2()),
     'MeshTet2()': ('tet', lambda f: f.MeshTet2()),
